@@ -57,38 +57,38 @@ CHECKS = {
         ref="DESIGN.md section 4 C13",
     ),
     "C09": dict(
-        technique="explicit-state BFS over store histories with every query in every state + choice-point exploration of a second connection at every SQLite VM step + SIGKILL/abort at every VM step (and every mutating syscall) of a batch insert, against a Counter reference model",
-        text="Histories of add/reopen/open through 1..3 connections are explored breadth-first on a real database file and in every state every filter(m,p,n) of the alphabet and list_modules is compared with a reference model; a second connection reads/writes at every VM step of an insert; a forked writer is killed at every VM step (thorough: every mutating syscall via strace injection) and the file is inspected through an independent connection; every step is also aborted through the progress handler.",
-        note="Trusts SQLite's locking and journalling; 2..3 connections explored exhaustively, the '16 processes' end of the quantifier is covered by commutation of whole transactions only; process kill, not power loss.",
+        technique="explicit-state BFS over store histories with every query in every state + choice-point exploration of a second connection at every SQLite VM step + the writer as a separate process paused at every VM step while this process acts (real inter-process file locks) + SIGKILL/abort at every VM step (and every mutating syscall) of a batch insert, against a Counter reference model",
+        text="Histories of add/reopen/open through 1..3 connections are explored breadth-first on a real database file and in every state every filter(m,p,n) of the alphabet and list_modules is compared with a reference model; a second connection reads/writes at every VM step of an insert; a forked writer is killed at every VM step (thorough: every mutating syscall via strace injection) and the file is inspected through an independent connection; every step is also aborted through the progress handler. A second BFS runs add / next-calendar-day / reopen over two stores that share one file but not a table (default table via make_store, custom table via the constructor; the clock of add is an explorer-owned seam), and a 1200-row batch is added whole after several prefixes. The writer is also run as a separate forked process that the explorer pauses at every VM step of its insert while this process reads or writes through its own connection.",
+        note="Trusts SQLite's locking and journalling; 2..3 connections and 2 processes explored exhaustively, the '16 processes' end of the quantifier is covered by commutation of whole transactions only; process kill, not power loss.",
         ref="DESIGN.md section 4 C09",
     ),
     "C17": dict(
         technique="exhaustive enumeration of every library .py file (and symlinked / near-miss spellings) against an independent path oracle + explicit enumeration of filter-cache call histories + all 64 subset filters and a real `monkeytype run` (bounded exhaustive, E1/E3)",
-        text="Every .py file under the installed interpreter's three library roots (thorough: every code object really compiled from them), frozen/builtin code, synthetic file names, user files reached directly, through symlinks and through look-alike paths, allow-lists of 0..3 names, every ordered pair/triple of filter calls on equal code objects from files with different verdicts starting from a cleared cache, a real `monkeytype run` of a script (its functions are __main__) and all 64 custom subset filters.",
+        text="Every .py file under the installed interpreter's three library roots (thorough: every code object really compiled from them), frozen/builtin code, synthetic file names, user files reached directly, through symlinks and through look-alike paths, allow-lists of 0..3 names, every ordered pair/triple of filter calls on equal code objects from files with different verdicts starting from a cleared cache, a real `monkeytype run` of a script (its functions are __main__; imported modules named main, m, a, _, __main__x ... are not), all 64 custom subset filters, and every pair of subset filters over nested tracing blocks.",
         note="Enumerates the file universe of this interpreter only; allow-list names are package/module names below the import root.",
         ref="DESIGN.md section 4 C17",
     ),
     "C10": dict(
-        technique="explicit enumeration of stores (subsets of valid rows x subsets of 24 stale-row kinds x insertion orders) against the real CLI with a differential oracle (bounded exhaustive, E1+E4)",
-        text="Every subset of four valid rows combined with every subset of up to 2 (thorough 3) of 24 kinds of stale rows, in three insertion orders, is written directly into a database and run through stub / stub -v / stub module:qualname / apply; stdout, the applied file, the exit status and the exact count of skipped rows are compared with the run on the decodable rows alone.",
+        technique="explicit enumeration of stores (subsets of valid rows x subsets of 32 stale-row kinds x insertion orders) against the real CLI with a differential oracle (bounded exhaustive, E1+E4)",
+        text="Every subset of four valid rows combined with every subset of up to 2 (thorough 3) of 32 kinds of stale rows, in three insertion orders, is written directly into a database and run through stub / stub -v / stub module:qualname / apply; stdout, the applied file, the exit status and the exact count of skipped rows are compared with the run on the decodable rows alone.",
         note="Corrupt rows (invalid JSON, wrong arity) are outside the property's list; identical rows are one trace.",
         ref="DESIGN.md section 4 C10",
     ),
     "C02": dict(
         technique="explicit-state BFS over driver-operation sequences on live generator/coroutine frames + exhaustive enumeration of call shapes, real CallTracer under real profile events, judged by a sys.monitoring ground-truth recorder (E3 + E1)",
-        text="Every function kind x parameter list x exit kind x call style, nesting/recursion/propagation scenarios and twin modules are run under the real tracer; all sequences of next/send/throw/close/drop on every single and ordered pair of eight generator/coroutine templates are explored breadth-first by replay, with the tracer's whole mutable state in the state key. After every driver operation the logged traces must equal the frames the interpreter reports as completed, in order and content, and CallTracer.traces must hold exactly the unfinished frames.",
+        text="Every function kind x parameter list x exit kind x call style, nesting/recursion/propagation scenarios and twin modules are run under the real tracer; all sequences of next/send/throw/close/drop on every single and ordered pair of thirteen generator/coroutine templates (incl. a coroutine rebinding its parameter between awaits, a types.coroutine generator, and generators that meet a value on which type collection itself fails) are explored breadth-first by replay, with the tracer's whole mutable state in the state key. After every driver operation the logged traces must equal the frames the interpreter reports as completed, in order and content, and CallTracer.traces must hold exactly the unfinished frames. The nesting scenarios are repeated with a logger that raises on its i-th call for every i, and a scenario list with self-referential / too deeply nested values (type collection fails) is run in every rotation: such a call may stay unlogged but leaves no per-call state and never a trace that omits a position.",
         note="Trusts CPython 3.12's sys.monitoring events as ground truth; nested functions/closures/lambdas are MAY-log; named parameters exclude *args/**kwargs.",
         ref="DESIGN.md section 4 C02",
     ),
     "C18": dict(
         technique="stateless choice-point exploration (deviation-bounded) with the sampling RNG answered by the explorer: every answer vector for every program x rate, exact expectation instead of statistics (E2)",
         text="The `random` module seen by monkeytype.tracing is replaced by an explorer-owned seam; for seven programs x six rates every answer vector over {0,1,N-1} is executed (complete up to 6 draws, otherwise all vectors within 3 deviations of always-sample and never-sample; every r in range(N) for a one-call program). Every logged trace must describe a real completed call exactly (ground truth from sys.monitoring), skipped calls leave no residue, rate None/1 traces everything, and the exact expected traced fraction lies within 25% of 1/N.",
-        note="Answers 1..N-1 are treated as one class (justified by the per-answer check); seam loss is detected by calibration.",
+        note="Answers 1..N-1 are treated as one class (justified by the per-answer check); seam loss is detected by calibration; a private generator constructed with an explicit seed is not a choice point (the real seeded generator is handed out, so the no-draw oracle fires); the open finding is attributed per frame (draw i = i-th frame activation).",
         ref="DESIGN.md section 4 C18",
     ),
     "C03": dict(
         technique="exhaustive differential exploration (untraced vs traced run of every tripwire x position workload) with every fault set of size <= 2 injected into the logger, both block exits and both profiler configurations (E4 + E2 fault enumeration)",
-        text="For 16 tripwire kinds at 18 positions, every subset of at most two faults among {log#1, log#2, log#3, flush}, both exits of the traced block and with/without a pre-installed profiler, the workload is run untraced and traced; the complete observation record (journal of every user-level hook incl. finalisers, results, exceptions, stdout) must be identical, no MonkeyType exception may reach the program, the previous profiler must be back and flush must have run exactly once.",
+        text="For 16 tripwire kinds at 24 positions (incl. values on which type collection fails, returned / yielded / passed), every subset of at most two faults among {log#1, log#2, log#3, flush}, both exits of the traced block and with/without a pre-installed profiler, the workload is run untraced and traced; the complete observation record (journal of every user-level hook incl. finalisers, results, exceptions, stdout) must be identical, no MonkeyType exception may reach the program, the previous profiler must be back and flush must have run exactly once. In fresh interpreters `python prog.py` / `python -m prog` are compared with `monkeytype run prog.py` / `monkeytype run -m prog` (stdout, exit status; the program looks at sys.argv, __main__ and pickles its own class).",
         note="Observable behaviour = hook journal + results + exceptions + stdout; fault sites are the logger's log/flush calls.",
         ref="DESIGN.md section 4 C03",
     ),
@@ -100,19 +100,19 @@ CHECKS = {
     ),
     "C15": dict(
         technique="explicit enumeration of generated source modules (feature-toggle product) x stubs MonkeyType itself generates x overwrite/k/confinement flags, through apply_stub_using_libcst and the real `apply` command; AST eraser-and-diff oracle (bounded exhaustive, E1)",
-        text="Sources built from the complete product of feature toggles (comments, docstring, __future__, typing import, partial annotations, decorators, nested defs, module/class level code, conditional defs, one-liners, star and positional-only parameters) are annotated with the stubs MonkeyType generates for traced subsets under every flag combination; the result must parse, equal the original once annotations / added imports / generated TypedDict classes are erased, keep every comment and existing annotation (unless overwrite), contain every stub annotation, and be a fixed point of a second application; the same through `monkeytype apply` rewriting the file.",
+        text="Sources built from the complete product of feature toggles (comments, docstring, __future__, typing import, partial annotations, decorators, nested defs, module/class level code, conditional defs, one-liners, star and positional-only parameters) are annotated with the stubs MonkeyType generates for traced subsets under every flag combination; the result must parse, equal the original once annotations / added imports / generated TypedDict classes are erased, keep every comment and existing annotation (unless overwrite), contain every stub annotation, and be a fixed point of a second application; the same through `monkeytype apply` rewriting the file, and through three successive `apply module:qualname` commands in one process, each judged against the file the previous one left.",
         note="libcst needs ~0.3 s per application: quick uses a 5-toggle product plus single-toggle sources, thorough an 8-toggle product and all subsets.",
         ref="DESIGN.md section 4 C15",
     ),
     "C16": dict(
         technique="explicit enumeration of import placement x import form x runtime use x stub-import kind x overwrite with confinement on; results inspected (import inventory) and EXECUTED with the workload re-run (bounded exhaustive, E1)",
-        text="The complete product of six import placements, six import forms, runtime use yes/no, eight kinds of imports the stub may add (new user module, typing name, already-imported name, TypedDict base of a generated class, another name of the same module, nothing new, a user module named like typing, a same-short-name class of another module) and overwrite on/off is applied with --pep_563 semantics; the __future__ import must come first, new annotation-only imports must be confined, every original import must stay in place with its alias, and the resulting module is executed and must reproduce the workload's result.",
+        text="The complete product of eleven import placements (top, after docstring / __future__ / module code, inside a function, an `if TYPE_CHECKING:`, a try/except binding TYPE_CHECKING, module-level try / with / for blocks, a class body), six import forms, runtime use yes/no, eight kinds of imports the stub may add (new user module, typing name, already-imported name, TypedDict base of a generated class, another name of the same module, nothing new, a user module named like typing, a same-short-name class of another module) and overwrite on/off is applied with --pep_563 semantics; the __future__ import must come first, new annotation-only imports must be confined, every original import must stay in place with its alias, and the resulting module is executed and must reproduce the workload's result. Two further families: a second application that needs the import the first one confined (judged against the first result), and sources living in a package that import `from .rsub import Tri` while the stub imports `Tri` from the top-level module `rsub`.",
         note="Trusts ast for the import inventory; the workload's observable result is the module-level RESULT value.",
         ref="DESIGN.md section 4 C16",
     ),
     "C01": dict(
         technique="explicit enumeration of call histories x function kinds x k x rewriter x CLI flag through the real trace -> SQLite -> decode -> shrink -> rewrite -> render pipeline; the stub text is evaluated with its own names and every recorded value judged by the conformance oracle (bounded exhaustive, E1+E4)",
-        text="Every depth-1 grammar value and every pair of representative values is bound to its own generated function (nine kinds: function, method, classmethod, generators with and without return value, coroutine that really suspends, truthfully annotated, alternating yields/returns); monkeytype.trace(config) records the real run into a SQLite file and `stub` is rendered for five size limits x seven rewriters x four CLI flags; each annotation is evaluated with the names the stub provides and every value really passed, returned or yielded at that position must be a member of it.",
+        text="Every depth-1 grammar value and every pair of representative values is bound to its own generated function (ten kinds: function, method, classmethod, generators with and without return value, coroutine that really suspends, truthfully annotated, alternating yields/returns, one call yielding the whole history); monkeytype.trace(config) records the real run into a SQLite file and `stub` is rendered for five size limits x seven rewriters x four CLI flags; each annotation is evaluated with the names the stub provides and every value really passed, returned or yielded at that position must be a member of it. Every function is also stubbed alone, and a store with many duplicate calls is stubbed under a query limit equal to the number of distinct rows.",
         note="Trusts member()/stubeval; generator and coroutine annotations are read at function level (yielded / returned / awaited values).",
         ref="DESIGN.md section 4 C01",
     ),
